@@ -131,23 +131,43 @@ def run(ctx):
     cases = []
     while len(cases) < n:
         fw = rng.choice([0.0, 0.0, 0.8])
-        g = G.SchemaGen(rng, max_nodes=rng.choice([2, 5, 10, 18]), max_depth=rng.choice([2, 4, 6]),
-                        namespaces=rng.choice([("",), ("ns", "ns.sub", "other"), ("", "ns", "ns.sub")]),
-                        ref_prob=0.5 if fw else 0.2)
-        nodes = g.build()
-        try:
+        named = rng.random() < 0.6
+        if named:
+            # the name rules: colliding simple names over several namespaces, every (enclosing, own) namespace arrangement,
+            # many references, definitions before and after their uses
+            fw = rng.choice([0.0, 0.5, 0.9])
+            nodes = D.NameGraphGen(rng, logical=True).build()
+        else:
+            g = G.SchemaGen(rng, max_nodes=rng.choice([2, 5, 10, 18]), max_depth=rng.choice([2, 4, 6]),
+                            namespaces=rng.choice([("",), ("ns", "ns.sub", "other"), ("", "ns", "ns.sub")]),
+                            ref_prob=0.5 if fw else 0.2)
+            nodes = g.build()
+        for attempt in range(4):
             dg = D.DocGen(rng, nodes, forward=fw)
             doc = dg.gen(0, None)
-            ref_doc = D.DocGen(rng, nodes, forward=0.0, extras=0.0).gen(0, None)
-        except D.Unspellable:
-            continue
-        if set(dg.occ) != dg.defined:
-            continue            # a late definition site was never reached: not a complete document
+            if set(dg.occ) == dg.defined:
+                break
+        else:
+            continue            # a late definition site was never reached (the only later uses are inside the definition itself)
+        ref_doc = D.DocGen(rng, nodes, forward=0.0, extras=0.0).gen(0, None)
         cases.append(("valid", nodes, doc, ref_doc, dg.has_forward))
-        if rng.random() < 0.35:
-            inv = invalidate(rng, doc)
+        if rng.random() < (0.6 if named else 0.35):
+            r = rng.random()
+            if named and r < 0.45:
+                d2 = D.near_miss_unknown(rng, dg, doc)
+                inv = ("unknown-ref-near-miss", d2) if d2 else None
+            elif named and r < 0.65:
+                d2 = D.near_miss_duplicate(rng, dg, doc)
+                inv = ("duplicate-respelled", d2) if d2 else None
+            else:
+                inv = invalidate(rng, doc)
             if inv:
                 cases.append((inv[0], nodes, inv[1], None, False))
+    # record cycles: several records, the cycle through the outermost record or strictly below it, next to conditional cycles
+    # (through unions / arrays / maps), names over several namespaces; unconditional (per the construction) = must be rejected
+    for _ in range(n // 6):
+        doc, unconditional = D.cycle_doc(rng)
+        cases.append(("record-cycle" if unconditional else "valid-doc", None, doc, None, False))
     texts = [D.to_text(c[2], rng) for c in cases]
     impl = C.run_parallel(C.AVRODRIVE, ["parse " + C.hx(t) for t in texts])
     model = C.run_parallel(C.AVROMODEL, ["parse " + D.to_sx(c[2]) for c in cases])
@@ -162,12 +182,23 @@ def run(ctx):
         mline = "parse " + D.to_sx(doc)
         pi, pm = C.parse_sx(ri)[0], C.parse_sx(rm)[0]
         distinct.add(D.minified(doc))
+        if pi[0] in ("crash", "panic", "bad-case"):
+            violations.append({"impl_case": line, "what": "parsing a document did not return Ok or Err: %s" % ri[:100], "document": text[:800]})
+            continue
         # model vs implementation: node vector, canonical form, fingerprint, reported JSON
         if pi[0] != pm[0] and not (pi[0] in ("err", "freeze-err") and pm[0] == "err"):
             diffs.append({"impl_case": line, "model_case": mline, "impl": ri[:500], "model": rm[:500]})
         elif pi[0] == "ok" and (C.show_sx(pi[1]) != C.show_sx(pm[1]) or pi[2] != pm[2] or pi[3] != pm[3] or pi[4] != pm[4]):
             diffs.append({"impl_case": line, "model_case": mline, "impl": ri[:700], "model": rm[:700]})
-        if kind == "valid":
+        if kind == "valid-doc":
+            # a valid document with definitions before uses: parsed, and the canonical form is the specification's
+            dist["valid/conditional-cycles"] += 1
+            if pi[0] != "ok":
+                violations.append({"impl_case": line, "what": "a specification-valid document (records containing themselves only through "
+                                   "unions / arrays / maps) was rejected", "document": text[:800], "impl": ri[:300]})
+            elif pm[0] == "ok" and pm[5] != pi[2]:
+                violations.append({"impl_case": line, "what": "canonical form differs from PcfSpec.pcf of this very document", "document": text[:800]})
+        elif kind == "valid":
             rr = C.parse_sx(next(refm))[0]
             bb = C.parse_sx(next(built))[0]
             dist["valid/forward-refs" if fwd else "valid"] += 1
@@ -204,10 +235,12 @@ def run(ctx):
                 # removing "type" from a field object or from an object that is not a schema leaves the document valid in rare cases
                 violations.append({"impl_case": line, "what": "an invalid document (%s) was accepted" % kind, "document": text[:800]})
     return {"evaluations": len(cases) * 2, "distinct_nontrivial": len(distinct),
-            "rule": "valid schemas (all node kinds, logical types, sharing, recursion) spelled as documents with random choices of: namespace in "
+            "rule": "name-rule schemas (few simple names over several namespaces, every enclosing/own namespace arrangement, null-namespace "
+                    "types inside namespaces, many references incl. `.Name`, conditional recursion) and valid schemas (all node kinds, logical types, sharing, recursion) spelled as documents with random choices of: namespace in "
                     "the name / namespace attribute / inherited / explicit empty namespace, inline definition vs reference, definition after use "
                     "(forward references), member order, doc/aliases/default/order/custom attributes, whitespace and \\u escapes; oracle: H1 canonical "
                     "form = extracted PcfSpec.pcf of the schema's forward-reference-free spelling, fingerprint = that of the built graph, "
                     "attributes preserved, JSON = minified document; invalidations (unknown reference, duplicate definition, missing required "
-                    "attribute, self/mutually containing records) must be rejected; model vs crate: node vector, canonical form, fingerprint, JSON",
+                    "attribute, self/mutually containing records, near-miss references = an existing simple name resolved in a namespace where it is "
+                    "not defined, a second definition of a fullname in another spelling) must be rejected; model vs crate: node vector, canonical form, fingerprint, JSON",
             "samples": samples, "violations": violations, "model_diffs": diffs, "distribution": dict(dist)}
